@@ -12,7 +12,7 @@ use sloc_guard::config::{Config, ContentRule};
 use sloc_guard::counter::LineStats;
 
 use super::Tier;
-use crate::proto::{Case, Sink, b, guarded, opt_b, opt_num};
+use crate::proto::{Case, Sink, b, enc, guarded, opt_b, opt_num};
 use crate::rng::Rng;
 
 const PATTERNS: &[&str] = &[
@@ -290,6 +290,30 @@ fn emit(sink: &mut Sink, g: &Gen, relational: bool) {
     sink.push(Case { request: req, implementation: line, pred, tag });
 }
 
+/// Scope and rule selection from the pattern *texts*: the model derives the match bits itself
+/// (glob model) and must name the processing decision and the governing rule the checker names.
+fn scope_case(sink: &mut Sink, g: &Gen) {
+    if !sink.want() {
+        sink.skip();
+        return;
+    }
+    let g2 = g.clone();
+    let got = std::panic::catch_unwind(move || {
+        let o = observe(&g2);
+        (o.process, o.x_rule, o.x_excl)
+    });
+    let list = |v: &[&str]| v.iter().map(|x| format!(" {}", enc(x))).collect::<String>();
+    let pats: Vec<&str> = g.rules.iter().map(|r| r.pattern.as_str()).collect();
+    let request = format!("scope {}{} {}{} {}{} {}", g.exclude.len(), list(&g.exclude), g.exts.len(), list(&g.exts), pats.len(), list(&pats), enc(g.path));
+    let (implementation, tag) = match got {
+        // `explain` names no rule for an excluded file: compare the processing decision only
+        Ok((process, _, true)) => (format!("process={} -", b(process)), "scope/excluded".to_string()),
+        Ok((process, rule, false)) => (format!("process={} rule={}", b(process), opt_num(rule)), format!("scope/{}{}", if process { "processed" } else { "out-of-scope" }, if rule.is_some() { "/rule" } else { "" })),
+        Err(_) => ("panic".to_string(), "scope/panic".to_string()),
+    };
+    sink.push(Case { request, implementation, pred: "ok".into(), tag });
+}
+
 fn gen_rule(r: &mut Rng, wild: bool) -> ContentRule {
     let max_lines = *r.pick(&[0usize, 1, 2, 5, 10, 50, 100, 300, 1000]);
     let warn_threshold = if r.chance(1, 2) {
@@ -469,6 +493,9 @@ pub fn run(tier: Tier, seed: u64, out: &str) {
         let big = i % 7 == 6;
         let g = gen_case(&mut r, wild, big);
         emit(&mut sink, &g, i % 4 == 0);
+        if i % 3 == 0 {
+            scope_case(&mut sink, &g);
+        }
     }
     let _ = guarded(String::new);
     if let Ok(bin) = std::env::var("SGVERIF_BIN") {
